@@ -36,6 +36,9 @@ FORBIDDEN = re.compile(
     r"type-in-type|impredicative-set|Admit\s+Obligations|Unset\s+Universe|Unset\s+Positivity")
 
 
+TABLES_ERR = None
+
+
 class HarnessBuildError(Exception):
     pass
 
@@ -137,9 +140,25 @@ def scan_forbidden():
     return hits
 
 
+def regen_tables():
+    """Run the table translator (tools/gentables.py) against REPO; rewrite Model/Tables.v only when it changed.
+    Returns None or an error text."""
+    import gentables
+    try:
+        txt = gentables.generate(REPO)
+    except Exception as e:  # the declarative tables could not be read: the tie to the code is broken
+        return "gentables: %r" % (e,)
+    out = COQ / "Model" / "Tables.v"
+    if not out.exists() or out.read_text() != txt:
+        out.write_text(txt)
+    return None
+
+
 def coq_build(targets=None, timeout=3000):
     """Incremental full .vo build under an exclusive lock. Returns (ok, log)."""
     with Lock(True):
+        global TABLES_ERR
+        TABLES_ERR = regen_tables()
         if not (COQ / "Makefile").exists() or (COQ / "Makefile").stat().st_mtime < (COQ / "_CoqProject").stat().st_mtime:
             subprocess.run(["coq_makefile", "-f", "_CoqProject", "-o", "Makefile"], cwd=COQ,
                            check=True, stdout=subprocess.PIPE, stderr=subprocess.STDOUT)
